@@ -275,6 +275,7 @@ uint64_t w_sa_unpack2(uint8_t* packed, uint64_t data_length, uint64_t req, uint8
     VssDataStringArray_t sa;
     uint64_t changed = 0;
     int scattered = (int)((prefill >> 16) & 1);
+    int alternate = (int)((prefill >> 17) & 1);         /* every second result object has a NULL destination (its length is wanted, not its bytes) */
     prefill &= 0xFFFF;
     memset(strs, 0x5C, sizeof strs);
     sa.data_length = (uint16_t)data_length;
@@ -282,14 +283,14 @@ uint64_t w_sa_unpack2(uint8_t* packed, uint64_t data_length, uint64_t req, uint8
     for (uint64_t i = 0; i < req && i < SA_MAX; i++) {
         VssDataString_t* d = &strs[SLOT(i, req, scattered)];
         d->data_length = (uint16_t)prefill;
-        d->data = dest ? (char*)dest + be_load(offs_be + 4 * i, 4) : (char*)0;
+        d->data = (dest && !(alternate && (i & 1))) ? (char*)dest + be_load(offs_be + 4 * i, 4) : (char*)0;
         ptrs[i] = d;
     }
     Avtp_Vss_DeserializeStringArray(&sa, ptrs, (uint16_t)req);
     for (uint64_t i = 0; i < req && i < SA_MAX; i++) {
         VssDataString_t* d = &strs[SLOT(i, req, scattered)];
         be_store(out_lens_be + 2 * i, 2, d->data_length);
-        if (d->data != (dest ? (char*)dest + be_load(offs_be + 4 * i, 4) : (char*)0)) changed = 1;
+        if (d->data != ((dest && !(alternate && (i & 1))) ? (char*)dest + be_load(offs_be + 4 * i, 4) : (char*)0)) changed = 1;
     }
     if (scattered) for (uint64_t i = 0; i <= 2 * req && i < 2 * SA_MAX; i += 2) {        /* the unused slots between the descriptors */
         const uint8_t* b = (const uint8_t*)&strs[i];
